@@ -183,8 +183,10 @@ class HBatch(BatchBase):
         env.log.append(["flush", self.kind, self.no, sorted(repr(i.arg) for i in self.items)])
         for n, i in enumerate(self.items):
             if self.fault == "raise" and n >= 1:
-                for j in self.items[n:]:
-                    env.item_action[j.uid] = ["flusherr", self.kind, self.no]
+                # a failing flush: every item the body has not set receives the flush error
+                for j in self.items:
+                    if not j.is_computed():
+                        env.item_action[j.uid] = ["flusherr", self.kind, self.no]
                 raise env.exc(("flush", self.kind, self.no))
             env.item_action[i.uid] = i.outcome
             if i.outcome == "ok":
@@ -246,6 +248,10 @@ class Env(object):
         self.check_c06 = False
         self.flush_snapshots = []
         self.keep = []         # futures kept alive for the whole case
+        self.deliveries = {}   # exception key -> tids it was thrown into
+        self.delivered_multi = 0
+        self.delivered_caught = 0
+        self.ncands = 0
 
     def v(self, clause, msg):
         if len(self.viol) < 50:
@@ -503,8 +509,13 @@ def exec_block(env, rec, me, body):
                     elif first._error is not e:
                         env.v("C02.identity", "task %r received %r, not the error object of the first failing future in structure order (%r)" % (tid, e.key, exc_key(first._error)))
                 _after_resume(env, rec, futs, fresh)
+                d = env.deliveries.setdefault(repr(exc_key(e)), set())
+                d.add(tid)
+                if len(futs) >= 2:
+                    env.delivered_multi += 1
                 if not st["catch"]:
                     raise
+                env.delivered_caught += 1
                 rec.got.append(["caught", canon(exc_key(e))])
             except BaseException:
                 # generator closed (abandoned task) or a foreign exception: keep the run stack sane
@@ -685,7 +696,7 @@ def run_program(prog, check_c04=False, check_c06=False, reset=True, options=None
                 best = max(b.get_priority() for b in cands.values())
                 if batch.get_priority() != best:
                     env.v("C05.priority", "flushed %s#%d with priority %r while a pending batch has %r" % (batch.kind, batch.no, batch.get_priority(), best))
-                env.ncands = max(getattr(env, "ncands", 0), len(set(k for k, n in cands)))
+                env.ncands = max(env.ncands, len(set(k for k, n in cands)))
 
     def after(batch):
         if not isinstance(batch, HBatch):
